@@ -65,19 +65,27 @@ func capped() bool { return atomic.LoadInt64(&unattributed) > violationCap }
 // Part (a): trigger objects against the reference models
 
 type keyVariant struct {
-	name   string
-	keys   [2]execution.GroupKey
-	gid    [2]string
-	times  [2]time.Time
-	strs   [2]string
-	tIndex int
+	name    string
+	keys    [2]execution.GroupKey
+	gid     [2]string
+	times   [2]time.Time
+	strs    [2]string
+	hasNull bool
+	tIndex  int
 }
 
+// nullMark as the string component of a key stands for a NULL component: (time, NULL).
+const nullMark = "<NULL>"
+
 func mkKey(t time.Time, s string, timeFirst bool) execution.GroupKey {
-	if timeFirst {
-		return execution.GroupKey{octosql.NewTime(t), octosql.NewString(s)}
+	sv := octosql.NewString(s)
+	if s == nullMark {
+		sv = octosql.NewNull()
 	}
-	return execution.GroupKey{octosql.NewString(s), octosql.NewTime(t)}
+	if timeFirst {
+		return execution.GroupKey{octosql.NewTime(t), sv}
+	}
+	return execution.GroupKey{sv, octosql.NewTime(t)}
 }
 
 func variants() []keyVariant {
@@ -92,6 +100,12 @@ func variants() []keyVariant {
 		v.gid = [2]string{trigh.GroupID(ta, sa), trigh.GroupID(tb, sb)}
 		v.times = [2]time.Time{ta, tb}
 		v.strs = [2]string{sa, sb}
+		for i, x := range v.strs {
+			if x == nullMark {
+				v.strs[i] = "" // what a NULL value carries in .Str
+				v.hasNull = true
+			}
+		}
 		return v
 	}
 	return []keyVariant{
@@ -101,6 +115,11 @@ func variants() []keyVariant {
 		mk("reversed-times", t2, "a", t1, "b", true),
 		mk("time-second-in-key", t1, "a", t2, "b", false),
 		mk("same-instant-mixed-locations", t1, "a", t1.In(plus2), "b", true),
+		// a group key with a NULL component next to a non-NULL one (GROUP BY over a nullable
+		// column): NULL is an ordinary group key, equal to itself
+		mk("null-component", t1, nullMark, t2, "b", true),
+		mk("null-component-same-time", t1, "b", t1, nullMark, true),
+		mk("null-component-time-second", t2, nullMark, t1, "b", false),
 	}
 }
 
@@ -427,7 +446,7 @@ func partA(c *core.Ctx) {
 			for i, v := range vs {
 				// key times only matter to the watermark trigger: the other configurations get
 				// the first two variants.
-				if !cfg.Has('W') && i >= 2 {
+				if !cfg.Has('W') && i >= 2 && v.name != "null-component" {
 					continue
 				}
 				jobs = append(jobs, job{cfg, v, L})
